@@ -650,12 +650,13 @@ def gen_driver_cpp(model, plan, header_path):
                     ps.append("%s%s%s" % (ct, "" if ct.endswith("*") else " ", a[1]))
                 rt = ("Cont%d" % k) if is_clone else hdrgen.cpp_type(ret, m)
                 w("static %s%smock_%d_%s_%s(%s) {" % (rt, "" if rt.endswith("*") else " ", k, v["field"], fname, ", ".join(ps)))
+                arc = o["ctx"] == "CArc_c_void"
                 if kind == "own":
                     w('    printf("SLOT %d.%s.%s inst=%%llu byvalue", (unsigned long long)%s->id);' % (k, v["field"], fname, inst_of_val))
-                    w('    printf(" ctx=arc%llu", (unsigned long long)((const arcin *)cont.context.instance)->id);')
+                    w('    printf(" ctx=arc%llu", (unsigned long long)((const arcin *)cont.context.instance)->id);' if arc else '    printf(" ctx=none");')
                 else:
                     w('    printf("SLOT %d.%s.%s inst=%%llu same=%%d", (unsigned long long)%s->id, (const void *)cont == EXPECT_CONT);' % (k, v["field"], fname, inst_of_ptr))
-                    w('    printf(" ctx=arc%llu", (unsigned long long)((const arcin *)cont->context.instance)->id);')
+                    w('    printf(" ctx=arc%llu", (unsigned long long)((const arcin *)cont->context.instance)->id);' if arc else '    printf(" ctx=none");')
                 w('    printf(" args=[");')
                 for a in args:
                     w("    " + pr(a[0], a[1]) + ' printf(";");')
@@ -663,15 +664,17 @@ def gen_driver_cpp(model, plan, header_path):
                 if kind == "own":
                     if o["cont"] == "Box":
                         w("    if (cont.instance.drop_fn) cont.instance.drop_fn(cont.instance.instance);")
-                    w("    { arcin *a = (arcin *)cont.context.instance; cont.context.drop_fn(cont.context.instance);")
-                    w('      printf("LIBRARY arc%llu %s\\n", (unsigned long long)a->id, a->count > 0 ? "still-loaded" : "UNLOADED-INSIDE-CALL"); }')
+                    if arc:
+                        w("    { arcin *a = (arcin *)cont.context.instance; cont.context.drop_fn(cont.context.instance);")
+                        w('      printf("LIBRARY arc%llu %s\\n", (unsigned long long)a->id, a->count > 0 ? "still-loaded" : "UNLOADED-INSIDE-CALL"); }')
                 if is_clone:
                     w("    { Cont%d out = *cont;" % k)
                     if o["cont"] == "Box":
                         w("      out.instance.instance = &INST[CLONE_INST];")
                     else:
                         w("      out.instance = &INST[CLONE_INST];")
-                    w("      out.context.instance = cont->context.clone_fn(cont->context.instance);")
+                    if arc:
+                        w("      out.context.instance = cont->context.clone_fn(cont->context.instance);")
                     w("      return out; }")
                 elif ret != "void":
                     w("    return %s;" % rslot[ret])
@@ -696,7 +699,8 @@ def gen_driver_cpp(model, plan, header_path):
                 w("    o%d->container.instance.instance = &INST[%d]; o%d->container.instance.drop_fn = inst_drop;" % (on, st["inst"], on))
             else:
                 w("    o%d->container.instance = &INST[%d];" % (on, st["inst"]))
-            w("    o%d->container.context.instance = &ARCS[%d]; o%d->container.context.clone_fn = arc_clone; o%d->container.context.drop_fn = arc_drop; ARCS[%d].count++;" % (on, st["ctx"], on, on, st["ctx"]))
+            if o["ctx"] == "CArc_c_void":
+                w("    o%d->container.context.instance = &ARCS[%d]; o%d->container.context.clone_fn = arc_clone; o%d->container.context.drop_fn = arc_drop; ARCS[%d].count++;" % (on, st["ctx"], on, on, st["ctx"]))
             w('    printf("CREATE o%d\\n"); state();' % on)
         elif st["op"] == "drop":
             w('    printf("DROP o%d\\n");' % st["obj"])
@@ -753,7 +757,8 @@ def expected_log_cpp(model, plan, known_ctx_leak=False):
     for st in plan["steps"]:
         if st["op"] == "create":
             objs[st["obj"]] = {"type": st["type"], "inst": st["inst"], "ctx": st["ctx"]}
-            arcs[st["ctx"]] += 1
+            if st["ctx"] is not None:
+                arcs[st["ctx"]] += 1
             out.append("CREATE o%d" % st["obj"])
             state()
         elif st["op"] == "drop":
@@ -762,7 +767,8 @@ def expected_log_cpp(model, plan, known_ctx_leak=False):
             out.append("DROP o%d" % st["obj"])
             if o["cont"] == "Box":
                 drops[ob["inst"]] += 1
-            arcs[ob["ctx"]] -= 1
+            if ob["ctx"] is not None:
+                arcs[ob["ctx"]] -= 1
             state()
         else:
             ob = objs[st["obj"]]
@@ -773,19 +779,23 @@ def expected_log_cpp(model, plan, known_ctx_leak=False):
             out.append("CALL o%d %s.%s" % (st["obj"], st["field"], st["fname"]))
             args = "".join(text_value(a[0], val) + ";" for a, val in zip(f[2], st["args"]))
             if f[1] == "own":
-                out.append("SLOT %d.%s.%s inst=%d byvalue ctx=arc%d args=[%s]" % (k, st["field"], st["fname"], ob["inst"], ob["ctx"], args))
+                ctxt = ("ctx=arc%d" % ob["ctx"]) if ob["ctx"] is not None else "ctx=none"
+                out.append("SLOT %d.%s.%s inst=%d byvalue %s args=[%s]" % (k, st["field"], st["fname"], ob["inst"], ctxt, args))
                 if o["cont"] == "Box":
                     drops[ob["inst"]] += 1
-                arcs[ob["ctx"]] -= 1
-                if known_ctx_leak:
-                    arcs[ob["ctx"]] += 1
-                out.append("LIBRARY arc%d still-loaded" % ob["ctx"])
+                if ob["ctx"] is not None:
+                    arcs[ob["ctx"]] -= 1
+                    if known_ctx_leak:
+                        arcs[ob["ctx"]] += 1
+                    out.append("LIBRARY arc%d still-loaded" % ob["ctx"])
                 objs.pop(st["obj"])
             else:
-                out.append("SLOT %d.%s.%s inst=%d same=1 ctx=arc%d args=[%s]" % (k, st["field"], st["fname"], ob["inst"], ob["ctx"], args))
+                ctxt = ("ctx=arc%d" % ob["ctx"]) if ob["ctx"] is not None else "ctx=none"
+                out.append("SLOT %d.%s.%s inst=%d same=1 %s args=[%s]" % (k, st["field"], st["fname"], ob["inst"], ctxt, args))
             if "new_obj" in st:
                 objs[st["new_obj"]] = {"type": k, "inst": st["new_inst"], "ctx": ob["ctx"]}
-                arcs[ob["ctx"]] += 1
+                if ob["ctx"] is not None:
+                    arcs[ob["ctx"]] += 1
                 out.append("RET container inst=%d vtables=1" % st["new_inst"])
             elif f[3] == "void":
                 out.append("RET void")
